@@ -718,7 +718,7 @@ func init() {
 			Rule: "random comment line lists over markers, '=', spaces, tabs, non-ASCII and the examples of the doc comment, default and custom markers; compared with the model and with an independent re-statement of the classification rule",
 		},
 		{
-			Name: "layout", Quick: 800, Thorough: 8000, New: func() Case { return &layoutCase{} },
+			Name: "layout", Quick: 1600, Thorough: 12000, New: func() Case { return &layoutCase{} },
 			Gen:      func(r *Rng, i int) Case { return genLayout(r) },
 			BatchRun: layoutBatch, ShrinkBudget: 60, MaxShrinks: 6,
 			Rule: "source files of 1–3 sections (ungrouped var/type/const, struct fields, grouped const/var/type) × 1–7 rows among blank line, 1–3-line comment group (line or block comments, tag lines, go: prose), one- or three-line declaration with or without trailing comment, multi-name declarations; loaded with the real types.Load (400 packages per load); Doc and Comment of every declared name compared with the model on the same layout and with the layout's own ground truth; the package holds a second file with the same line structure under other names and with other comment texts; every name is asked twice and the harness scribbles over the first answer (lines, comment, tag map) in between: the second answer must be the same",
